@@ -290,6 +290,105 @@ func main() {
 		}
 	}
 	r.Sample("logger level 1, global level -3, sampler none, WithLevel(0) -> not written; WithLevel(1) -> written with level 1")
+	// The gate belongs to the logger VALUE: every way of deriving a logger from a configured one, and every order of
+	// the three configuring calls, keeps the level, the sampler and the hook (wave 21: Output() had dropped the sampler).
+	{
+		w2 := &recLW{}
+		type cfg struct {
+			name string
+			mk   func(ll zerolog.Level, cs *countSampler, withS bool) (zerolog.Logger, *recLW)
+		}
+		smp := func(l zerolog.Logger, cs *countSampler, withS bool) zerolog.Logger {
+			if withS {
+				return l.Sample(cs)
+			}
+			return l
+		}
+		base := func(ll zerolog.Level, cs *countSampler, withS bool) zerolog.Logger {
+			return smp(zerolog.New(w).Level(ll).Hook(hk), cs, withS)
+		}
+		cfgs := []cfg{
+			{"order sample,level,hook", func(ll zerolog.Level, cs *countSampler, s bool) (zerolog.Logger, *recLW) {
+				return smp(zerolog.New(w), cs, s).Level(ll).Hook(hk), w
+			}},
+			{"order hook,sample,level", func(ll zerolog.Level, cs *countSampler, s bool) (zerolog.Logger, *recLW) {
+				return smp(zerolog.New(w).Hook(hk), cs, s).Level(ll), w
+			}},
+			{"Output(w2)", func(ll zerolog.Level, cs *countSampler, s bool) (zerolog.Logger, *recLW) {
+				return base(ll, cs, s).Output(w2), w2
+			}},
+			{"With().Logger()", func(ll zerolog.Level, cs *countSampler, s bool) (zerolog.Logger, *recLW) {
+				return base(ll, cs, s).With().Logger(), w
+			}},
+			{"With().Str().Logger()", func(ll zerolog.Level, cs *countSampler, s bool) (zerolog.Logger, *recLW) {
+				return base(ll, cs, s).With().Str("k", "v").Logger(), w
+			}},
+			{"With().Logger().Output(w2)", func(ll zerolog.Level, cs *countSampler, s bool) (zerolog.Logger, *recLW) {
+				return base(ll, cs, s).With().Timestamp().Logger().Output(w2), w2
+			}},
+			{"Output(w2).With().Logger()", func(ll zerolog.Level, cs *countSampler, s bool) (zerolog.Logger, *recLW) {
+				return base(ll, cs, s).Output(w2).With().Logger(), w2
+			}},
+			{"UpdateContext", func(ll zerolog.Level, cs *countSampler, s bool) (zerolog.Logger, *recLW) {
+				l := base(ll, cs, s)
+				l.UpdateContext(func(c zerolog.Context) zerolog.Context { return c.Int("u", 1) })
+				return l, w
+			}},
+			{"Ctx(WithContext)", func(ll zerolog.Level, cs *countSampler, s bool) (zerolog.Logger, *recLW) {
+				l := base(ll, cs, s)
+				return *zerolog.Ctx(l.WithContext(context.Background())), w
+			}},
+			{"Level(same) again", func(ll zerolog.Level, cs *countSampler, s bool) (zerolog.Logger, *recLW) {
+				return base(ll, cs, s).Level(ll), w
+			}},
+			{"copy through pointer", func(ll zerolog.Level, cs *countSampler, s bool) (zerolog.Logger, *recLW) {
+				l := base(ll, cs, s)
+				p := &l
+				return *p, w
+			}},
+		}
+		grid := []int{-128, -2, -1, 0, 1, 2, 3, 5, 6, 7, 8, 127}
+		for _, c := range cfgs {
+			for _, ll := range grid {
+				if c.name == "Ctx(WithContext)" && ll == int(zerolog.Disabled) {
+					continue // documented: WithContext does not store a Disabled logger, Ctx then hands out the package's disabled one
+				}
+				for _, gl := range grid {
+					zerolog.SetGlobalLevel(zerolog.Level(gl))
+					for _, s := range samplers {
+						cs := &countSampler{admit: s.admit}
+						lg, dst := c.mk(zerolog.Level(ll), cs, !s.nilS)
+						other := w
+						if dst == w {
+							other = w2
+						}
+						for _, el := range evLevels {
+							w.n, w.plain, w2.n, w2.plain = 0, 0, 0, 0
+							dst.lvl = 99
+							cs.calls, hk.calls = 0, 0
+							lg.WithLevel(el).Msg("m")
+							passes := int(el) >= ll && int(el) >= gl && el != zerolog.Disabled
+							want := passes && (s.nilS || s.admit)
+							wantCalls, wantHook := 0, 0
+							if passes && !s.nilS {
+								wantCalls = 1
+							}
+							if want {
+								wantHook = 1
+							}
+							ok := (dst.n == 1) == want && dst.n <= 1 && dst.plain == 0 && other.n == 0 && (dst.n == 0 || dst.lvl == el) &&
+								cs.calls == wantCalls && (cs.calls == 0 || cs.last == el) && hk.calls == wantHook
+							r.EvalHash(seq.Hash(c.name)^(uint64(uint8(ll))<<32|uint64(uint8(gl))<<24|uint64(uint8(el))<<16|uint64(dst.n)<<8|uint64(cs.calls)<<4|uint64(len(s.name))), (int(el) >= ll) != (int(el) >= gl))
+							if !ok {
+								r.Violation("", fmt.Sprint("derived/", c.name, "/", s.name, passes), fmt.Sprintf("logger configured with level %d, hook and sampler %s, then %s; global level %d, WithLevel(%d): writes=%d (want %v) level seen=%d writes to the other writer=%d sampler calls=%d (want %d) hook calls=%d (want %d)", ll, s.name, c.name, gl, el, dst.n, want, dst.lvl, other.n, cs.calls, wantCalls, hk.calls, wantHook), nil)
+							}
+						}
+					}
+				}
+			}
+		}
+		r.Sample("New(w).Level(1).Hook(h).Sample(reject).Output(w2), WithLevel(3) -> sampler asked once, nothing written to w or w2")
+	}
 	// DisableSampling is a setter: after every sequence of up to 4 calls, a rejecting sampler is bypassed iff the LAST
 	// value set was true (and consulted exactly once per event otherwise)
 	zerolog.SetGlobalLevel(zerolog.TraceLevel)
